@@ -52,6 +52,16 @@ def dt():
     return DT
 
 
+DT1 = None
+
+
+def dt1():
+    global DT1
+    if DT1 is None:
+        DT1 = strax.time_fields + [(("value field v1", "v1"), np.int64)]
+    return DT1
+
+
 def mk(rows):
     a = np.zeros(len(rows), dtype=dt())
     if len(rows):
@@ -61,7 +71,7 @@ def mk(rows):
     return a
 
 
-def plugins(depth, tsz):
+def plugins(depth, tsz, mixed=False):
     @strax.takes_config(strax.Option("rows_by_run", default={}, track=True),
                         strax.Option("cuts_by_run", default={}, track=False))
     class RSrc(strax.Plugin):
@@ -103,7 +113,41 @@ def plugins(depth, tsz):
         L.__name__ = "L_" + name
         return L
 
-    return [RSrc, lvl("l1", "src", depth <= 1), lvl("l2", "l1", depth <= 2), lvl("l3", "l2", True)]
+    class M1(strax.Plugin):
+        """Second branch from the source (same kind, other field)."""
+        provides = "m1"
+        depends_on = ("src",)
+        dtype = dt1()
+        data_kind = "src"
+        # same level as l1, except in the "mixed" variant (l1 computed for the superrun, m1 combined from subruns)
+        allow_superrun = depth <= 1 and not mixed
+        chunk_target_size_mb = tsz
+
+        def compute(self, src):
+            r = np.zeros(len(src), dtype=dt1())
+            r["time"] = src["time"]
+            r["endtime"] = src["endtime"]
+            r["v1"] = src["v0"] * 2
+            return r
+
+    class Jn(strax.Plugin):
+        """Two inputs that may reach the superrun level in different ways (stored superrun data / per-subrun
+        chunks): value = l1 + 1000 exactly when the two inputs are row-aligned."""
+        provides = "jn"
+        depends_on = ("l1", "m1")
+        dtype = dt()
+        data_kind = "src"
+        allow_superrun = True
+        chunk_target_size_mb = tsz
+
+        def compute(self, src):
+            r = np.zeros(len(src), dtype=dt())
+            r["time"] = src["time"]
+            r["endtime"] = src["endtime"]
+            r["v0"] = src["v0"] + 1000 + (src["v1"] - 2 * (src["v0"] - 1000))
+            return r
+
+    return [RSrc, lvl("l1", "src", depth <= 1), lvl("l2", "l1", depth <= 2), lvl("l3", "l2", True), M1, Jn]
 
 
 def gen_case(seed, idx):
@@ -124,7 +168,8 @@ def gen_case(seed, idx):
         t0 = t
         rr = []
         for i in range(rng.randint(1, 6)):
-            t += rng.choice([0, 10, 1500, 3000])
+            # 500 ns after the start of the run = where the rechunker cuts (DEFAULT_CHUNK_SPLIT_NS / 2 before a row)
+            t += rng.choice([0, 10, 500, 1500, 3000])
             ln = rng.choice([5, 50])
             rr.append((t, t + ln, r * 100 + i))
             t += ln
@@ -144,13 +189,24 @@ def gen_case(seed, idx):
     depth = rng.choice([1, 2, 3])
     tgt = rng.choice(["l1", "l2", "l3"][depth - 1:])
     feats["levels_above"] = ["l1", "l2", "l3"].index(tgt) + 1 - depth
-    return {"rows": rows, "cuts": cuts, "ext": ext, "depth": depth, "target": tgt,
+    pre = None
+    if rng.random() < 0.3:
+        # two-input plugin at the superrun level; optionally one input is made (and stored) for the superrun first
+        tgt = "jn"
+        depth = rng.choice([1, 2])
+        feats["levels_above"] = 2 - depth
+        if depth == 1:
+            pre = rng.choice([None, "l1", "m1", "l1"])
+            if rng.random() < 0.15:
+                feats["mixed_input_levels"] = True
+                pre = None
+    return {"rows": rows, "cuts": cuts, "ext": ext, "depth": depth, "target": tgt, "pre_make": pre,
             "tsz": rng.choice([24 * 2 / 1e6, 24 * 5 / 1e6, 1]), "write_superruns": rng.random() < 0.5,
             "processor": rng.choice(["single_thread", "threaded_mailbox"]), "features": feats}
 
 
 def context(case, d, **kw):
-    plugs = plugins(case["depth"], case["tsz"])
+    plugs = plugins(case["depth"], case["tsz"], mixed=case["features"].get("mixed_input_levels", False))
     st = strax.Context(storage=[strax.DataDirectory(d, provide_run_metadata=True)], register=plugs,
                        processors=[case["processor"]],
                        config=dict(rows_by_run={k: tuple(tuple(x) for x in v) for k, v in case["rows"].items()},
@@ -205,6 +261,8 @@ def run_case(case):
     def add(kind, text, exc=None, **extra):
         sig = {"kind": kind, "levels_above": min(feats["levels_above"], 1), "zero_duration_chunk": feats["zero_duration_chunk_in_subrun"],
                "multi_chunk_subrun": feats["multi_chunk_subrun"]}
+        if feats.get("mixed_input_levels"):
+            sig["mixed_input_levels"] = True
         sig.update(extra)
         if exc is not None:
             sig.update(common.exc_sig(exc))
@@ -213,7 +271,7 @@ def run_case(case):
 
     d = hrun.mktemp("c14-")
     tgt = case["target"]
-    nlevels = ["l1", "l2", "l3"].index(tgt) + 1
+    nlevels = 2 if tgt == "jn" else ["l1", "l2", "l3"].index(tgt) + 1
     completed = False
     try:
         st = context(case, d)
@@ -229,6 +287,11 @@ def run_case(case):
         ref = np.concatenate(sub)
         try:
             with common.quiet():
+                if case.get("pre_make"):
+                    # history: one input of the target is requested (and, with write_superruns, stored) for
+                    # the superrun before the target itself
+                    context(case, d, write_superruns=True).make("_sup", case["pre_make"], progress_bar=False)
+                    cnt["pre_made_inputs"] = 1
                 chunks = list(st.get_iter("_sup", tgt, progress_bar=False))
         except Exception as e:  # noqa: BLE001
             if "Timeout" in type(e).__name__:
